@@ -104,18 +104,35 @@ package util
 
 // the fuzzy echo test: every input byte is found in the output, in order. One step: the first occurrence of a byte is
 // found and the search goes on behind it.
+// firstAt(o, ch): the index of the first occurrence of ch in o, -1 when there is none
+//@ spec firstAt(o []byte, ch byte) int
+//@ axiom #firstat-range forall o []byte, ch byte :: {firstAt(o, ch)} -1 <= firstAt(o, ch) && firstAt(o, ch) < len(o)
+//@ axiom #firstat-found forall o []byte, ch byte :: {firstAt(o, ch)} firstAt(o, ch) >= 0 ==> o[firstAt(o, ch)] == ch
+//@ axiom #firstat-least forall o []byte, ch byte, j int :: {firstAt(o, ch), o[j]} 0 <= j && j < len(o) && (j < firstAt(o, ch) || firstAt(o, ch) == -1) ==> o[j] != ch
+// subseq(in, i, o): the bytes in[i:] occur in o in this order, not necessarily next to each other. Defined by the greedy
+// recursion (take the first occurrence of in[i], go on behind it), which decides subsequence matching exactly. The step is
+// unfolded only where a contract asks for it with unf(in, i, o) (a marker that is always true): no matching loop.
+//@ spec subseq(in []byte, i int, o []byte) bool
+//@ spec unf(in []byte, i int, o []byte) bool
+//@ axiom #unf-is-a-marker forall in []byte, i int, o []byte :: {unf(in, i, o)} unf(in, i, o)
+//@ axiom #subseq-done forall in []byte, i int, o []byte :: {subseq(in, i, o)} i >= len(in) ==> subseq(in, i, o)
+//@ axiom #subseq-step forall in []byte, i int, o []byte :: {unf(in, i, o)} 0 <= i && i < len(in) ==> (subseq(in, i, o) <==> (firstAt(o, in[i]) >= 0 && subseq(in, i + 1, o[firstAt(o, in[i]) + 1:len(o)])))
 //@ func bytesRoughlyContainsIterOutputForInputChar [C01 C12]
 //@   pure
 //@   ensures #found-means-first-occurrence-and-the-rest-behind-it result.0 ==> (exists k int :: 0 <= k && k < len(output) && output[k] == inputChar && (forall j int :: 0 <= j && j < k ==> output[j] != inputChar) && result.1 === output[k+1:len(output)])
 //@   ensures #not-found-means-absent !result.0 ==> (forall j int :: 0 <= j && j < len(output) ==> output[j] != inputChar) && result.1 == output
+//@   ensures #found-exactly-when-the-byte-occurs result.0 <==> firstAt(output, inputChar) >= 0
+//@   ensures #the-search-goes-on-behind-the-first-occurrence result.0 ==> result.1 === output[firstAt(output, inputChar) + 1:len(output)]
 //@   loop 1 invariant -1 <= rangeindex && rangeindex < len(output)
 //@   loop 1 invariant forall j int :: 0 <= j && j <= rangeindex ==> output[j] != inputChar
-// roughly(input, output): uninterpreted name of the whole test (its loop over the input is not verified here)
-//@ spec roughly(input []byte, output []byte) bool
-//@ func BytesRoughlyContains
-//@   noverify
+// roughly(input, output): the fuzzy echo test - the input occurs in the output as a block, or byte by byte in order
+// (the first alternative and the length test are implied by the second; they are the code's short cuts)
+//@ spec roughly(input []byte, output []byte) bool := contains(output, input) || (len(output) >= len(input) && subseq(input, 0, output))
+//@ func BytesRoughlyContains [C01 C12]
 //@   pure
-//@   ensures result <==> roughly(input, output)
+//@   ensures #the-fuzzy-test-is-subsequence-matching result <==> roughly(input, output)
+//@   loop 1 invariant -1 <= rangeindex && rangeindex < len(input)
+//@   loop 1 invariant #what-is-left-of-the-input-is-looked-for-behind-the-last-byte-found unf(input, rangeindex + 1, output) && (subseq(input, 0, old(output)) <==> subseq(input, rangeindex + 1, output))
 
 // ---- C20: no queue method returns holding the lock
 //@ released [C20] Queue.lock
